@@ -375,3 +375,67 @@ func TestF18CallbackReplyUnencodableErrorData(t *testing.T) {
 		t.Errorf("the callback was answered with %q, which is not its failure report", got)
 	}
 }
+
+// F19: ParseRequests does not flag a member that has no method name ("If a request is valid, its
+// Error field is nil"), so the HTTP bridge forwards it to its server under a fresh id. On a
+// push-enabled bridge that id can equal the id of a callback that is still unanswered (both
+// counters start at 1): the method-less message is then taken for the reply to that callback - the
+// handler's Callback returns a bogus empty result, and the HTTP caller is never answered.
+func TestF19BridgeForwardsMethodlessMember(t *testing.T) {
+	gate := make(chan struct{})
+	cbResults := make(chan string, 4)
+	br := jhttp.NewBridge(handler.Map{"p": func(ctx context.Context, req *jrpc2.Request) (any, error) {
+		for i := 0; i < 2; i++ { // callback ids 1 and 2; the second one stays unanswered for a while
+			rsp, err := jrpc2.ServerFromContext(ctx).Callback(ctx, "cb", []int{i})
+			if err != nil {
+				cbResults <- "err:" + err.Error()
+			} else {
+				cbResults <- rsp.ResultString()
+			}
+		}
+		return "done", nil
+	}}, &jhttp.BridgeOptions{
+		Server: &jrpc2.ServerOptions{AllowPush: true, Concurrency: 4},
+		Client: &jrpc2.ClientOptions{OnCallback: func(ctx context.Context, req *jrpc2.Request) (any, error) {
+			var p []int
+			req.UnmarshalParams(&p)
+			if p[0] == 1 {
+				<-gate
+			}
+			return fmt.Sprintf("cb-%d", p[0]), nil
+		}},
+	})
+	defer br.Close()
+	post := func(body string) chan string {
+		out := make(chan string, 1)
+		go func() {
+			req := httptest.NewRequest("POST", "http://x/", strings.NewReader(body))
+			req.Header.Set("Content-Type", "application/json")
+			w := httptest.NewRecorder()
+			br.ServeHTTP(w, req)
+			out <- fmt.Sprintf("%d %s", w.Code, w.Body.String())
+		}()
+		return out
+	}
+	a := post(`{"jsonrpc":"2.0","id":"A","method":"p"}`) // forwarded under client id 1
+	if got := <-cbResults; got != `"cb-0"` {
+		t.Fatalf("first callback: %s", got)
+	}
+	// callback 2 is now pending; the next forwarded request gets client id 2
+	b := post(`{"jsonrpc":"2.0","id":"B"}`)
+	select {
+	case got := <-b:
+		if !strings.Contains(got, `"id":"B"`) || !strings.Contains(got, `"error"`) {
+			t.Errorf("method-less member answered with %s", got)
+		}
+	case got := <-cbResults:
+		t.Errorf("the method-less member of another HTTP caller was taken for the reply to callback 2: Callback returned %q", got)
+	case <-time.After(3 * time.Second):
+		t.Errorf("the POST with a method-less member was never answered")
+	}
+	close(gate)
+	select {
+	case <-a:
+	case <-time.After(3 * time.Second):
+	}
+}
